@@ -84,6 +84,10 @@ class SymCtx:
         self.nontrivial_paths = 0
         self._path_nontrivial = False
         self.max_candidates = 40
+        # thorough tier: a sample of the obligations z3 discharged is re-decided by cvc5 (binary) from an SMT-LIB 2 export
+        self.cross_check = False
+        self.cross = {'exported': 0, 'agree': 0, 'inconclusive': 0, 'disagree': 0}
+        self._cross_seen: Dict[str, int] = {}
 
     # ---- per path
     def begin_path(self):
@@ -329,7 +333,7 @@ class SymCtx:
         return False
 
     # the discharge ladder
-    def _solve(self, hyps, goal_neg, rl_mult=1):
+    def _solve(self, hyps, goal_neg, rl_mult=1, tag=None):
         s = z3.Solver()
         s.set('timeout', self.oblig_timeout_ms * rl_mult)
         if self.oblig_rlimit:
@@ -341,7 +345,36 @@ class SymCtx:
         r = str(s.check())
         self.oblig_solver_s += time.perf_counter() - t0
         self.oblig_queries += 1
+        if r == 'unsat' and self.cross_check and tag is not None and self._cross_seen.get(tag, 0) < 2:
+            self._cross_seen[tag] = self._cross_seen.get(tag, 0) + 1
+            self._cvc5_recheck(s)
         return r, (s.model() if r == 'sat' else None)
+
+    def _cvc5_recheck(self, solver):
+        import os
+        import subprocess
+        import tempfile
+        try:
+            text = '(set-logic ALL)\n' + solver.to_smt2()
+            with tempfile.NamedTemporaryFile('w', suffix='.smt2', delete=False) as f:
+                f.write(text)
+                path = f.name
+            self.cross['exported'] += 1
+            try:
+                out = subprocess.run(['cvc5', '--tlimit=20000', path], capture_output=True, text=True, timeout=40).stdout.strip().splitlines()
+            except subprocess.TimeoutExpired:
+                out = ['timeout']
+            finally:
+                os.unlink(path)
+            ans = out[0] if out else ''
+            if ans == 'unsat':
+                self.cross['agree'] += 1
+            elif ans == 'sat':
+                self.cross['disagree'] += 1
+            else:
+                self.cross['inconclusive'] += 1
+        except Exception:
+            self.cross['inconclusive'] += 1
 
     def _model_ok(self, m, lits) -> bool:
         for l in lits:
@@ -417,7 +450,7 @@ class SymCtx:
                         continue
                     if mult > 1 and lname == 'lin':
                         continue
-                    r, m = self._solve(hyps, ng, rl_mult=mult)
+                    r, m = self._solve(hyps, ng, rl_mult=mult, tag=rec.name)
                     attempts.append(f'{gname}/{lname}{"*8" if mult > 1 else ""}:{r}')
                     if r == 'unsat':
                         rec.discharged += 1
